@@ -9,6 +9,7 @@ import Bng.Model.FreeList
                alloc m3            => ok <hex> | exhausted
                release <hex>       => ok                       (Release is by VALUE and returns nothing)
                mark <hex>          => ok                       (MarkUnavailable)
+               reserve m3 <hex>    => true | false             (Reserve a specific address)
                stats               => <allocated> <available> <total> <unavailable>
     v6addr     new <basehex> <ones>                    => ok
                alloc d3 | release d3
@@ -54,6 +55,7 @@ def showObs (kind : Kind) (dl : Nat) : Obs → String
   | .exhausted => "exhausted"
   | .none => "none"
   | .sub k => s!"s{k}"
+  | .bool b => if b then "true" else "false"
   | .stats al av tot un =>
     match kind with
     | .dhcp => s!"{al} {av} {tot} {un}"
@@ -70,6 +72,7 @@ def parseOp (kind : Kind) (toks : List String) : Option Op :=
   | .dhcp, ["release", a] => (parseHex a).map .releaseVal
   | .dhcp, ["mark", a] => (parseHex a).map .mark
   | .dhcp, ["stats"] => some .stats
+  | .dhcp, ["reserve", k, a] => do let k ← parseTagged 'm' k; let a ← parseHex a; pure (.reserve k a)
   | .dhcp, _ => none
   | _, ["release", k] => (parseTagged kind.tag k).map .release
   | .localp, ["get", k] => (parseTagged 's' k).map .get
@@ -87,6 +90,9 @@ def event (kind : Kind) (op : Op) (impl : String) : Spec.MEv :=
   | .release k, ["ok"] => .pool (.released k)
   | .releaseVal a, ["ok"] => .pool (.releasedVal a)
   | .mark a, ["ok"] => .marked a
+  -- a successful Reserve MOVES the key to the named address (its old one is given back): a forced
+  -- assignment, judged for uniqueness and range but not for "same value as before"; a refusal claims nothing
+  | .reserve k a, ["true"] => .pool (.forced k a)
   | .stats, al :: av :: tot :: _ => match al.toNat?, av.toNat?, tot.toNat? with
       | some al, some av, some tot => .statsFL al av tot
       | _, _, _ => .pool .nop
@@ -100,7 +106,7 @@ def event (kind : Kind) (op : Op) (impl : String) : Spec.MEv :=
       | none => .pool .nop
   | _, _ => .pool .nop
 
-def v4geo (c : V4Cfg) (lo units : Nat) (holes : List Nat) : Spec.MGeo :=
+def v4geo (_c : V4Cfg) (lo units : Nat) (holes : List Nat) : Spec.MGeo :=
   { g := { lo := lo, step := 1, units := units, totalReported := 0 }, holes := holes }
 
 def construct (kind : Kind) (toks : List String) : Option (St × String) :=
